@@ -10,12 +10,13 @@ Export ListNotations.
 Definition msg := (nat * nat)%type.
 Definition msg_eqb (a b : msg) : bool := Nat.eqb (fst a) (fst b) && Nat.eqb (snd a) (snd b).
 
-Inductive op := OSend | ORecv | OClose | OIsClosed.
+Inductive op := OSend | ORecv | OClose | OIsClosed | OLen | OCap.
 Inductive res :=
 | RSent (ok : bool)            (* Send returned ok *)
 | RRecv (m : option msg)       (* Receive returned (m, true) or (nil, false) *)
 | RClosed                      (* Close returned *)
-| RIs (b : bool).              (* IsClosed returned b *)
+| RIs (b : bool)               (* IsClosed returned b *)
+| RNum (n : nat).              (* Len / Cap returned n *)
 
 Definition from (t : nat) (l : list msg) : list msg := filter (fun m => Nat.eqb (fst m) t) l.
 Fixpoint increasing (l : list nat) : Prop :=
